@@ -1673,6 +1673,17 @@ func (x *Exec) convertTo(st *State, v Term, to types.Type, n ast.Node) Term {
 			}
 		}
 		fromU := types.Unalias(v.Ty)
+		if _, isTP := fromU.(*types.TypeParam); isTP && v.Sort != "Ref" && x.sortOf(to) == "Ref" {
+			// a value of a type parameter seen as an interface value: an injective
+			// uninterpreted boxing (interface equality compares the dynamic values)
+			fn := "boxtp_" + sanitize(v.Sort)
+			x.d.fun(fn, []string{v.Sort}, "Ref")
+			x.d.fun("un"+fn, []string{"Ref"}, v.Sort)
+			r := tApp("Ref", fn, v)
+			st.assume(tEq(tApp(v.Sort, "un"+fn, r), v))
+			r.Ty = to
+			return r
+		}
 		if _, fromIface := fromU.Underlying().(*types.Interface); !fromIface {
 			if b, ok := fromU.(*types.Basic); ok && b.Kind() == types.UntypedNil {
 				r := x.zero(to)
